@@ -67,7 +67,7 @@ let candidate (c : cfg) (v : view) : op option =
       if b - a > 0 then Some (OSlicedS (z a, z b, z (pick (divisors (b - a))))) else None
   | `Strided -> if n > 0 then Some (OStrided (z (pick (divisors n)))) else Some (OStrided (z (rnd_range 1 3)))
   | `Dropped -> Some (ODropped (z (rnd_range 0 n)))
-  | `Taked -> if r = 1 then Some (OTaked (z (rnd_range 0 n))) else None
+  | `Taked -> Some (OTaked (z (rnd_range 0 n)))
   | `Rotated -> Some ORotated
   | `Unrotated -> Some OUnrotated
   | `Transposed -> if r >= 2 then Some OTransposed else None
@@ -208,7 +208,7 @@ let all_ops (v : view) : op list =
     @ List.concat_map (fun (a, b) -> if b > a then List.map (fun s -> OSlicedS (z a, z b, z s)) (divisors (b - a)) else []) slices
     @ (if n > 0 then List.map (fun s -> OStrided (z s)) (divisors n) else [])
     @ List.map (fun k -> ODropped (z k)) (rng 0 n)
-    @ (if r = 1 then List.map (fun k -> OTaked (z k)) (rng 0 n) else [])
+    @ List.map (fun k -> OTaked (z k)) (rng 0 n)
     @ [ ORotated; OUnrotated; OReversed ]
     @ (if r >= 2 then [ OTransposed; ODiagonal; OFlatted ] else [])
     @ (if n > 0 then List.map (fun k -> OPartitioned (z k)) (divisors n) @ List.map (fun k -> OChunked (z k)) (divisors n) @ [ OHalved ] else [])
